@@ -36,6 +36,41 @@ from .model import AnalysisError, walk_no_nested
 _GEN_CACHE = {}   # id(function node) -> (node, is generator)
 
 
+def _is_itertools(v, name, func):
+    if not isinstance(v, Sym):
+        return False
+    if v.op == "modattr" and v.args == ("itertools", name):
+        return True
+    if v.op == "attr" and len(v.args) == 2 and v.args[1] == name and isinstance(v.args[0], Sym) \
+            and v.args[0].op in ("name", "module") and v.args[0].args[:1] == ("itertools",):
+        return True
+    return v.op == "name" and func is not None and func.module.imports.get(v.args[0]) == ("itertools", name)
+
+
+def _is_chain(v, func):
+    """itertools.chain, however it was imported"""
+    if not isinstance(v, Sym):
+        return False
+    if v.op == "modattr" and v.args == ("itertools", "chain"):
+        return True
+    if v.op == "attr" and len(v.args) == 2 and v.args[1] == "chain" and isinstance(v.args[0], Sym) \
+            and v.args[0].op in ("name", "module") and v.args[0].args[:1] == ("itertools",):
+        return func is None or func.module.imports.get("itertools", ("itertools", None))[0] == "itertools"
+    if v.op == "name" and func is not None and func.module.imports.get(v.args[0]) == ("itertools", "chain"):
+        return True
+    return False
+
+
+class ClosureV:
+    """a function defined inside an interpreted function"""
+
+    def __init__(self, node, env, func):
+        self.node, self.env, self.func = node, env, func
+
+    def __repr__(self):
+        return "<closure %s>" % self.node.name
+
+
 class SetV:
     """abstract set: insertion-ordered list of abstract items (may hold extend-markers)"""
 
@@ -147,6 +182,61 @@ def subst_sym(v, old, new):
     return v
 
 
+OPAQUE_OPS = {"expr", "name", "global", "concat", "comp", "deep-call", "param", "star", "strformat", "strop", "localdef", "dict",
+              "fstring", "item", "yield-from", "seq", "modattr", "module", "unpacked", "unary", "new", "exc", "enum", "list", "tuple",
+              "sorted", "reversed", "range", "int", "len?", "floatAdd", "floatSub", "floatMult", "floatDiv"}
+
+
+def opaque_term(v, _depth=0):
+    """the first sub-term of an abstract value that the interpreter could not give a meaning to (an unevaluated
+    expression, an unresolved name, a call of something that is not a method of a model object ...), or None when
+    every part of `v` is a constant, a model atom, arithmetic over those, or a method call on those.
+    A verdict may only rest on values for which this returns None."""
+    if _depth > 40:
+        return "deep"
+    if isinstance(v, Sym):
+        if v.op in OPAQUE_OPS:
+            return "%s(%s)" % (v.op, ", ".join(str(a)[:40] for a in v.args[:2]))
+        if v.op == "call" and v.args and isinstance(v.args[0], str):
+            # call of a function by (unresolved or non-inlined) name: known only if it is a repository qualname kept opaque on purpose
+            pass
+        for a in v.args:
+            if isinstance(a, (Sym, Lin, list, tuple, Comp)):
+                r = opaque_term(a, _depth + 1)
+                if r:
+                    return r
+        return None
+    if isinstance(v, Lin):
+        for a in v.terms:
+            r = opaque_term(a, _depth + 1)
+            if r:
+                return r
+        return None
+    if isinstance(v, Comp):
+        return opaque_term(v.elt, _depth + 1) or opaque_term(v.iter, _depth + 1)
+    if isinstance(v, (list, tuple)):
+        for x in v:
+            r = opaque_term(x, _depth + 1)
+            if r:
+                return r
+        return None
+    if isinstance(v, dict):
+        for k_, x in v.items():
+            r = opaque_term(k_, _depth + 1) or opaque_term(x, _depth + 1)
+            if r:
+                return r
+        return None
+    if isinstance(v, (SetV,)):
+        return opaque_term(v.items, _depth + 1)
+    if isinstance(v, CatV):
+        return opaque_term(v.parts, _depth + 1)
+    if isinstance(v, Unknown):
+        return "unknown(%s)" % v.why
+    if isinstance(v, (ClosureV, LambdaV, Bound)):
+        return None
+    return None
+
+
 def generic_items(seq):
     """normalise a partly symbolic list: extend([elt for var in X]) -> the generic element elt[var := elem(X)]"""
     out = []
@@ -199,7 +289,26 @@ class SymInterp(Interp):
             v = bool(self.asg[kk])
             self.trace.append(("cond", tuple(k), v))
             return v
+        d = self._implied(k)
+        if d is not None:
+            return d
         raise Split([kk])
+
+    def _implied(self, k):
+        """facts about one value are not independent: None is falsy and an instance of nothing"""
+        if k[0] not in ("isnone", "truthy", "isa"):
+            return None
+        subj = k[1]
+        known = {}
+        for kk, v in self.asg.items():
+            if len(kk) >= 3 and kk[0] == "c" and kk[1] in ("isnone", "truthy", "isa") and kk[2] == subj:
+                known.setdefault(kk[1], []).append(bool(v))
+        if k[0] == "isnone":
+            if any(known.get("truthy", [])) or any(known.get("isa", [])):
+                return False
+        elif any(known.get("isnone", [])):
+            return False
+        return None
 
     def positive(self, a):
         h = self.user.get("positive")
@@ -472,13 +581,97 @@ class SymInterp(Interp):
     def exec_stmt(self, s, env, func):
         if isinstance(s, ast.Return):
             self.trace.append(("return", func.qualname, s))
+        if isinstance(s, ast.FunctionDef):
+            env[s.name] = ClosureV(s, env, func)
+            return None
         return super().exec_stmt(s, env, func)
+
+    def e_DictComp(self, e, env, func):
+        if len(e.generators) != 1:
+            return Sym("expr", ast.unparse(e)[:80])
+        g = e.generators[0]
+        it = self.eval(g.iter, env, func)
+        seq = self.concrete_iter(it)
+        if seq is None or any(is_marker(x) for x in seq):
+            return Sym("expr", ast.unparse(e)[:80])
+        out = {}
+        for item in seq:
+            env2 = dict(env)
+            self.assign(g.target, item, env2, func)
+            if all(self.truth(self.eval(c, env2, func), c, func) for c in g.ifs):
+                k = _int(self.eval(e.key, env2, func))
+                v = self.eval(e.value, env2, func)
+                ek = self._dict_find(out, k)
+                try:
+                    out[k if ek is None else ek] = v
+                except TypeError:
+                    raise AnalysisError("%s: unhashable abstract dict key" % func.loc(e))
+        return out
+
+    def e_NamedExpr(self, e, env, func):
+        v = self.eval(e.value, env, func)
+        self.assign(e.target, v, env, func)
+        return v
+
+    def call_closure(self, c, args, kwargs):
+        """a nested function: body interpreted in a copy of the defining environment (no rebinding of outer names)"""
+        if self.depth >= 12:
+            return Sym("deep-call", c.node.name)
+        a = c.node.args
+        if a.vararg or a.kwarg:
+            raise AnalysisError("%s: nested function with *args/**kwargs outside the symflow fragment" % c.func.loc(c.node))
+        env = dict(c.env)
+        params = [x.arg for x in a.posonlyargs + a.args]
+        defaults = list(a.defaults)
+        for i, p_ in enumerate(params):
+            if i < len(args):
+                env[p_] = args[i]
+            elif kwargs and p_ in kwargs:
+                env[p_] = kwargs[p_]
+            else:
+                di = i - (len(params) - len(defaults))
+                if 0 <= di < len(defaults):
+                    env[p_] = self.eval(defaults[di], c.env, c.func)
+                else:
+                    raise Raised("TypeError", c.node, "missing argument %s" % p_)
+        if any(isinstance(n, (ast.Yield, ast.YieldFrom, ast.Nonlocal)) for n in walk_no_nested(c.node)):
+            raise AnalysisError("%s: nested generator / nonlocal outside the symflow fragment" % c.func.loc(c.node))
+        self.depth += 1
+        try:
+            self.exec_block(c.node.body, env, c.func)
+            return None
+        except _Return as r:
+            return r.value
+        finally:
+            self.depth -= 1
 
     # ---- loops ---------------------------------------------------------------
     def concrete_iter(self, it):
         if isinstance(it, SetV):
             return list(it.items)
+        if isinstance(it, Obj) and it.cls is not None and it.cls.lookup("__iter__") is not None:
+            r = self.call_function(it.cls.lookup("__iter__"), [], None, recv=it)
+            if isinstance(r, (list, tuple)):
+                return list(r)
+            return None
         return super().concrete_iter(it)
+
+    def exec_while(self, s, env, func):
+        """bounded unrolling; the state that makes progress may live in object attributes, so no repetition test"""
+        n = 0
+        while True:
+            if not self.truth(self.eval(s.test, env, func), s.test, func):
+                self.exec_block(s.orelse, env, func)
+                return
+            n += 1
+            if n > 256:
+                raise AnalysisError("%s: while loop not bounded by abstract evaluation" % func.loc(s))
+            try:
+                self.exec_block(s.body, env, func)
+            except _Break:
+                return
+            except _Continue:
+                continue
 
     def exec_for(self, s, env, func):
         it = self.eval(s.iter, env, func)
@@ -594,8 +787,10 @@ class SymInterp(Interp):
             if r is not None:
                 return r
             raise AnalysisError("set operation on partly symbolic sets outside the symflow fragment")
-        if isinstance(a, list) and isinstance(op, ast.Add) and isinstance(b, Sym):
-            return a + [Sym("extend", b)]
+        if isinstance(op, ast.Add) and (isinstance(a, list) and isinstance(b, (Sym, Comp)) or isinstance(b, list) and isinstance(a, (Sym, Comp))):
+            la = a if isinstance(a, list) else [Sym("extend", a)]
+            lb = b if isinstance(b, list) else [Sym("extend", b)]
+            return la + lb
         if isinstance(op, ast.LShift) and isinstance(_int(b), int) and not isinstance(b, bool) and 0 <= _int(b) < 64 \
                 and isinstance(a, (Sym, Lin)):
             la = Lin.of(a)
@@ -633,6 +828,11 @@ class SymInterp(Interp):
             r = h(self, recv, name, args, kwargs, node, func)
             if r is not NotImplemented:
                 return r
+        if name == "from_iterable" and len(args) == 1 and _is_chain(recv, func):
+            seq = self.concrete_iter(args[0])
+            if seq is None:
+                raise AnalysisError("%s: chain.from_iterable over a symbolic sequence of iterables" % func.loc(node))
+            return self._chain(seq)
         if isinstance(recv, Sym) and recv.op == "module":
             mod = self._module(recv, func)
             if mod is not None:
@@ -642,6 +842,13 @@ class SymInterp(Interp):
                 if r is not None and r[0] == "class":
                     return self.new(r[1], args, kwargs, node, func)
             return NotImplemented
+        if isinstance(recv, (bytes, bytearray)) and len(recv) == 0 and name == "join" and len(args) == 1:
+            seq = self.concrete_iter(args[0])
+            if seq is not None and not any(is_marker(x) for x in seq):
+                parts = []
+                for x in seq:
+                    parts.extend(x.parts if isinstance(x, CatV) else [x])
+                return CatV(parts)
         if isinstance(recv, SetV):
             if name == "add":
                 if not any(self._same(x, args[0]) for x in recv.items):
@@ -751,6 +958,16 @@ class SymInterp(Interp):
                     return self.call_function(f, args, kwargs, recv=recv)
         return NotImplemented
 
+    def _chain(self, iterables):
+        out = []
+        for x in iterables:
+            seq = self.concrete_iter(x)
+            if seq is None:
+                out.append(Sym("extend", x))
+            else:
+                out.extend(seq)
+        return out
+
     def _same(self, a, b):
         try:
             return key(a) == key(b)
@@ -788,6 +1005,23 @@ class SymInterp(Interp):
             r = h(self, name, callee, args, kwargs, node, func)
             if r is not NotImplemented:
                 return r
+        if isinstance(callee, ClosureV):
+            return self.call_closure(callee, args, kwargs)
+        if _is_chain(callee, func):
+            return self._chain(args)
+        if _is_itertools(callee, "groupby", func) and args:
+            seq = self.concrete_iter(args[0])
+            keyf = (kwargs or {}).get("key", args[1] if len(args) > 1 else None)
+            if seq is None or any(is_marker(x) for x in seq):
+                raise AnalysisError("%s: itertools.groupby over a symbolic sequence" % func.loc(node))
+            groups = []
+            for x in seq:
+                kx = x if keyf is None else self.call_value(keyf, None, [x], {}, node, {}, func)
+                if groups and self.eq(groups[-1][0], kx):
+                    groups[-1][1].append(x)
+                else:
+                    groups.append((kx, [x]))
+            return groups
         if isinstance(callee, Ref) and callee.kind == "func":
             return self.repo_call(callee.obj, args, kwargs, node, func)
         if isinstance(callee, Ref) and callee.kind == "class":
@@ -795,6 +1029,37 @@ class SymInterp(Interp):
             if self.folder.is_enum(cls) or cls.is_subclass_of("Exception") or cls.name.endswith("Error"):
                 return NotImplemented
             return self.new(cls, args, kwargs, node, func)
+        if name == "sum" and isinstance(callee, Sym) and callee.op == "name" and args:
+            seq = self.concrete_iter(args[0])
+            if seq is not None and not any(is_marker(x) for x in seq):
+                tot = Lin.of(_int(args[1])) if len(args) > 1 else Lin({}, 0)
+                for x in seq:
+                    lx = Lin.of(_int(x))
+                    if tot is None or lx is None:
+                        tot = None
+                        break
+                    tot = tot + lx
+                if tot is not None:
+                    return tot.simplify()
+        if name == "setattr" and isinstance(callee, Sym) and callee.op == "name" and len(args) == 3 \
+                and isinstance(args[0], Obj) and isinstance(args[1], str):
+            args[0].attrs[self.mangle(args[1], func)] = args[2]
+            return None
+        if name == "len" and isinstance(callee, Sym) and callee.op == "name" and len(args) == 1 and isinstance(args[0], CatV):
+            tot = Lin({}, 0)
+            for part in args[0].parts:
+                tot = tot + Lin.of(Sym("len", part))
+            return tot.simplify()
+        if name == "bool" and isinstance(callee, Sym) and callee.op == "name" and len(args) == 1:
+            return self.truth(args[0], node, func)
+        if name == "next" and isinstance(callee, Sym) and callee.op == "name" and args:
+            seq = self.concrete_iter(args[0])
+            if seq is not None and not any(is_marker(x) for x in seq):
+                if seq:
+                    return seq[0]
+                if len(args) > 1:
+                    return args[1]
+                raise Raised("StopIteration", node)
         if isinstance(callee, (Sym,)) and callee.op == "name":
             if name in ("set", "frozenset"):
                 if not args:
